@@ -192,3 +192,43 @@ def width_boundary_programs():
     for n in (65534, 65535, 65536, 65537):
         out.append(("width-array-16", "stel a = [%s]; [lengte(a), a[-1]]" % ", ".join(["7"] * n)))
     return out
+
+
+def tail_shape_programs():
+    """function bodies (and loop bodies, and top-level blocks) whose LAST statement is an `als`/`anders als`/`anders` chain or a
+    block with branches that END DIFFERENTLY: in a value, in `antwoord`, in a declaration (no value), empty, in a nested chain, in
+    a loop left by `stop` — in every combination, called so that EVERY branch is taken.  The compiler decides per block whether a
+    trailing `Pop`/`Null`/`Return` is needed from the last instruction it emitted; a body whose branches disagree about that
+    (one yields a value, the other has already returned) is where a missing epilogue makes control run off the end of the
+    function body into the caller's code (C02), or leaves the wrong value (C11/C12)."""
+    ends = [
+        ("val", "n + 1"),
+        ("ret", "antwoord n + 2"),
+        ("decl", "stel t = n + 3"),
+        ("empty", ""),
+        ("retblock", "{ antwoord n + 4 }"),
+        ("nested", "als n > 5 { antwoord 50 } anders { 60 }"),
+        ("nestedret", "als n > 5 { 70 } anders { antwoord 80 }"),
+        ("loopstop", "zolang ja { stop }"),
+        ("assign", "n = n + 9"),
+    ]
+    out = []
+    args = ["0", "1", "2", "7"]
+    for la, a in ends:
+        for lb, b in ends:
+            body1 = "als n < 1 { %s } anders { %s }" % (a, b)
+            body2 = "als n < 1 { %s } anders als n < 2 { %s } anders { %s }" % (a, b, a)
+            body3 = "als n < 1 { %s }" % a if la == lb else None
+            for body in (body1, body2, body3):
+                if body is None:
+                    continue
+                calls = ", ".join("f(%s)" % x for x in args)
+                # tail position of a function body; followed by the caller's own code (which must not be re-entered)
+                out.append("stel teller = 0;\nfunctie f(n) { %s }\nteller = teller + 1;\nstel r = [%s];\nteller = teller + 100;\n[r, teller]" % (body, calls))
+                # not in tail position: the value of the chain is discarded, the function goes on
+                out.append("functie f(n) { %s; n * 1000 }\n[%s]" % (body, calls))
+                # as an operand and as an argument
+                out.append("functie f(n) { stel w = 10 + (%s); w }\n[%s]" % (body, calls) if "stel t" not in body else "functie f(n) { %s; 5 }\n[%s]" % (body, calls))
+            # a loop body ending in such a chain, inside a function and at top level
+            out.append("functie f(n) { stel i = 0; stel s = 0; zolang i < 3 { i += 1; s = s + i; als i < 2 { %s } anders { %s } }; [i, s] }\n[f(0), f(1), f(7)]" % (a, b))
+    return out
